@@ -48,6 +48,14 @@ func Reset() {
 	AssumeFailed = ""
 }
 
+// LoadFile makes the given replay file the source of all zzverif values.
+func LoadFile(p string) {
+	loaded = false
+	rf = replayFile{}
+	os.Setenv("VERIF_REPLAY", p)
+	load()
+}
+
 func load() {
 	if loaded {
 		return
@@ -201,8 +209,18 @@ func Reach(label string) { Reached = append(Reached, label) }
 // Region names a Boolean over the symbolic inputs; used to identify known findings.
 func Region(n string, c bool) {}
 
+// Observe records a value; the engine evaluates the same expression under a
+// model of each validated path and compares it with the native value. Use
+// bool, integers, strings and byte slices only.
 func Observe(label string, v interface{}) {
-	Observed = append(Observed, fmt.Sprintf("%s=%v", label, v))
+	switch x := v.(type) {
+	case []byte:
+		Observed = append(Observed, fmt.Sprintf("%s=%x", label, x))
+	case string:
+		Observed = append(Observed, fmt.Sprintf("%s=%x", label, []byte(x)))
+	default:
+		Observed = append(Observed, fmt.Sprintf("%s=%v", label, v))
+	}
 }
 
 // MayPanic runs f; a panic inside f is documented behaviour and not a violation.
@@ -221,6 +239,18 @@ func MayPanic(f func()) (panicked bool) {
 
 // Unwind sets the loop unwinding bound for symbolic branches (engine only).
 func Unwind(k int) {}
+
+// RunFiles runs the harness once per replay file and prints one result line each.
+func RunFiles(h func(), files []string) {
+	for _, f := range files {
+		LoadFile(f)
+		fails, pv, af := Run(h)
+		fmt.Printf("ZZVERIF-RESULT file=%q failures=%q panicked=%v assume=%q observed=%q\n", f, fails, pv != nil, af, Observed)
+		if pv != nil {
+			fmt.Printf("ZZVERIF-PANIC file=%q %v\n", f, pv)
+		}
+	}
+}
 
 // Run executes a harness natively and reports the outcome; used by replay tests.
 func Run(h func()) (failures []string, panicVal interface{}, assumeFailed string) {
